@@ -55,7 +55,14 @@ CORE_THEOREMS = ["format_irrelevant", "upper_eq_symmetric", "upper_same_result",
                  "relabel_unique_largest", "fallback_is_metric", "never_raises", "connected_no_fallback",
                  "largest_is_first_maximum", "int_type_sufficient", "int_type_sufficient_pair",
                  "collection_symmetric_zero_diag", "collection_entries_are_pair_results", "lb_deterministic",
-                 "collection_format_irrelevant", "pair_format_irrelevant", "mGH_relabel_invariant"]
+                 "collection_format_irrelevant", "pair_format_irrelevant", "mGH_relabel_invariant",
+                 # Props/C05C17.lean: the dispatch instantiated with C05's `estimate` model (the composed public model)
+                 "public_pair_spaces", "public_pair_brackets", "public_pair_brackets_connected", "public_iso_lb_zero",
+                 "public_lb_deterministic", "public_collection_brackets", "public_never_raises",
+                 "public_collection_never_raises"]
+# the second file composes this property's dispatch model with C05's model of `estimate` (theorems about the
+# composed model `MGHPublic.publicGH`; bridging lemmas in Lemmas/MGHPublic.lean)
+PROP_FILES = ["PersimVerif/Props/C17.lean", "PersimVerif/Props/C05C17.lean"]
 
 
 # ----------------------------------------------------------------------------- independent oracle (plain Python)
@@ -1091,9 +1098,10 @@ def replay(ctx, rep):
 
 
 MANIFEST = {
-    "text": "Proof: 33 Lean theorems (22 of them core: each carries a clause of the statement; the rest are helper steps, the "
+    "text": "Proof: 45 Lean theorems (30 of them core: each carries a clause of the statement; the rest are helper steps, the "
             "labelling contract, and concrete instances such as old_fallback_not_square, tie_relabel_selects_other_component, "
-            "int_type_thresholds; core Lean, no Mathlib needed) about the model of the representation layer of gromov_hausdorff "
+            "int_type_thresholds; Props/C17.lean is core Lean, no Mathlib needed; the 12 of Props/C05C17.lean compose it with C05's "
+            "Mathlib-based model of `estimate`) about the model of the representation layer of gromov_hausdorff "
             "over Nat matrices, for graphs of every size: the result depends on the input only through the undirected unweighted "
             "adjacency `adjOf` (so upper-triangular, strictly upper, symmetric, re-weighted, bool/int/float and list/dense/sparse forms of "
             "one labelled graph agree; self-loops never matter); the model's level-BFS with fuel n computes exactly the shortest-walk "
@@ -1111,14 +1119,22 @@ MANIFEST = {
             "collection result is N x N, symmetric, zero-diagonal, entry (i,j) is exactly the pair result in the RNG state reached at that "
             "point; `lb_deterministic` is a statement about the DISPATCH only: its hypothesis (two estimators always agree on the "
             "lower-bound component, i.e. find_lb is a function of (DX, DY) alone) IS the statement's clause for find_lb itself, which "
-            "this property does not prove - find_lb is owned by C05 - and which is tested here on the real code ([T] lb_deterministic); "
+            "C17.lean alone does not prove - find_lb is owned by C05 - and which is tested here on the real code ([T] lb_deterministic). "
+            "THAT HYPOTHESIS IS NOW DISCHARGED (Props/C05C17.lean): instantiating `est` with C05's model of `estimate` on the matrices "
+            "makeDist returns (MGHPublic.publicGH; NumPy's generator and mapping_sample_size_order are one `Sampler` parameter) gives "
+            "public_lb_deterministic without hypothesis, because find_lb takes no draws. The bracket of the PUBLIC entry point - every "
+            "returned (lo, hi) has lo <= mGH(X', Y') <= hi in halves for the shortest-path metrics X', Y' of the kept blocks "
+            "(public_pair_brackets, public_collection_brackets; also public_iso_lb_zero, public_never_raises), for inputs of every size, "
+            "connected or not, and every sampler meeting NumPy's contract - is a theorem about that COMPOSED MODEL; its tie to the real "
+            "code stays the two correspondences, C17's (here) and C05's. "
             "2*mGH <= c is invariant under relabelling (spec level); "
             "the pre-fix rows-only fallback is shown non-square by `decide`. The model is tied to the code on every run by exact comparison "
             "(distance matrix, warning, dtype, error kind, component labels, dispatch with the recorded estimate calls replayed into the "
             "model) on generated graphs in 15 containers x orientations x weights x relabellings.",
     "note": "Trusted: Lean kernel, axioms propext/Classical.choice/Quot.sound; the correspondence harness; scipy csgraph "
             "shortest_path/connected_components and numpy unique/argmax/mask indexing/astype as contracts (compared exactly with the model "
-            "on every case). `estimate` is a parameter (its soundness is C05). [T] only: bracket validity against the exhaustive mGH oracle "
+            "on every case). In Props/C17.lean `estimate` is a parameter (its soundness is C05); Props/C05C17.lean instantiates it with C05's model, "
+            "so the composed theorems additionally trust C05's correspondence (estimate downwards, recorded draws replayed), not a new one. [T] only: bracket validity against the exhaustive mGH oracle "
             "(<= 6 vertices; for SOME choice among tied largest components), container unpacking, warnings raised by the real code, "
             "NumPy's dtype promotion, the pairs of 128/129-vertex graphs through the public entry point (no exception, lb <= ub, lb = 0 "
             "for isomorphic pairs). DOCUMENTED LIMIT (one [T] case shows it on the real code): scipy's dense reader treats |x| <= 1e-8, "
